@@ -79,6 +79,8 @@ pub struct Cfg {
     pub transport: String,
     /// quinn idle timeout (= connection open timeout) in seconds
     pub quic_idle: u64,
+    /// substream open timeout (ms) of X and of Y
+    pub sot: [u64; 2],
 }
 
 impl Cfg {
@@ -95,6 +97,7 @@ impl Cfg {
             tq_ms: v["tq_ms"].as_u64().unwrap_or(60_000),
             transport: v["transport"].as_str().unwrap_or("tcp").to_string(),
             quic_idle: v["quic_idle"].as_u64().unwrap_or(5),
+            sot: [v["sot_x"].as_u64().unwrap_or(2000), v["sot_y"].as_u64().unwrap_or(2000)],
         }
     }
 }
@@ -193,7 +196,7 @@ impl Node {
         let tcp = TcpConfig {
             listen_addresses: vec!["/ip4/127.0.0.1/tcp/0".parse().unwrap()],
             connection_open_timeout: Duration::from_secs(2),
-            substream_open_timeout: Duration::from_secs(2),
+            substream_open_timeout: Duration::from_millis(cfg.sot[(idx as usize).min(1)]),
             nodelay: true,
             ..Default::default()
         };
@@ -202,7 +205,7 @@ impl Node {
             "ws" => b.with_websocket(WsConfig {
                 listen_addresses: vec!["/ip4/127.0.0.1/tcp/0/ws".parse().unwrap()],
                 connection_open_timeout: Duration::from_secs(2),
-                substream_open_timeout: Duration::from_secs(2),
+                substream_open_timeout: Duration::from_millis(cfg.sot[(idx as usize).min(1)]),
                 nodelay: true,
                 ..Default::default()
             }),
@@ -211,7 +214,7 @@ impl Node {
             "quic" => b.with_quic(QuicConfig {
                 listen_addresses: vec!["/ip4/127.0.0.1/udp/0/quic-v1".parse().unwrap()],
                 connection_open_timeout: Duration::from_secs(cfg.quic_idle),
-                substream_open_timeout: Duration::from_secs(2),
+                substream_open_timeout: Duration::from_millis(cfg.sot[(idx as usize).min(1)]),
             }),
             _ => b.with_tcp(tcp),
         };
@@ -812,6 +815,12 @@ impl Net {
                 let b = s["bytes"].as_u64().unwrap_or(0);
                 let _ = self.proxy.throttle(b);
                 let _ = self.rproxy.throttle(b);
+            }
+            "freeze" if s["dir"].as_str() == Some("fwd") => {
+                // only X -> Y stops (X dialled Y through this link): Y's bytes still reach X
+                if !self.proxy.freeze_fwd(s["on"].as_bool().unwrap_or(true)) {
+                    self.notes.push("freeze not available on this transport".into());
+                }
             }
             "freeze" => {
                 if !self.proxy.freeze(s["on"].as_bool().unwrap_or(true)) {
